@@ -194,12 +194,79 @@ pub fn run(ctx: &Ctx) -> (Outcome, String, Option<bool>) {
         r
     });
     out.stats.classes.insert("multiplier-chunks".into(), n_cases as u64);
-    let rule = format!("Enumerated: all 256 deltas x multipliers {{0..{} step {}}} + {{2^k-2..2^k+2 : 7<=k<=69}} + {{2^70-2, 2^70-1, 2^70}} + pseudo-random values below 2^70 ({} multipliers), on Custom02 (TIP-901 active) and on Mainnet and Testnet at height 0 (TIP-901 inactive; every third chunk), plus sealing without action, plus runs of 300 blocks of extreme deltas (-128, 127, -1, 1 in stretches of 40) from selected starting points. Oracle: m' = m + trunc(max(m>>7, 2 if TIP-901) * d / 128) in exact integer arithmetic; where that leaves [0, 2^128) the only requirement is that sealing does not fail and the multiplier does not move the wrong way or wrap; no action => unchanged. Non-trivial = (m, d) with d != 0; distinct by (m, d, TIP-901).", if ctx.thorough() { 16384 } else { 4096 }, if ctx.thorough() { 1 } else { 2 }, ms.len());
+    // activation boundaries: the blocks just below, at and above the TIP-901 height on mainnet (42 700, reached by
+    // re-basing a state through from_block) and on testnet (500, reached honestly)
+    let mut bcases = vec![];
+    for net in [1u8, 2] {
+        for m in [0u128, 1, 2, 3, 100, 127, 128, 255, 256, 257, 300, 1000, 65536] {
+            bcases.push((net, m.to_string()));
+        }
+    }
+    let o = run_enumeration(ctx, "activation-boundary", bcases, |(net, ms), st, shard| boundary_case(*net, ms.parse().unwrap(), st, shard));
+    out.absorb(o);
+    let rule = format!("Enumerated: all 256 deltas x multipliers {{0..{} step {}}} + {{2^k-2..2^k+2 : 7<=k<=69}} + {{2^70-2, 2^70-1, 2^70}} + pseudo-random values below 2^70 ({} multipliers), on Custom02 (TIP-901 active) and on Mainnet and Testnet at height 0 (TIP-901 inactive; every third chunk), plus sealing without action, plus runs of 300 blocks of extreme deltas (-128, 127, -1, 1 in stretches of 40) from selected starting points. Additionally, for 13 starting multipliers, the blocks at heights activation-2 .. activation+2 of TIP-901 on mainnet (42 700; state re-based through from_block) and testnet (500; reached with empty blocks) are sealed with deltas -128, -64, -1, 1, 64, 127. Oracle: m' = m + trunc(max(m>>7, 2 if TIP-901) * d / 128) in exact integer arithmetic; where that leaves [0, 2^128) the only requirement is that sealing does not fail and the multiplier does not move the wrong way or wrap; no action => unchanged. Non-trivial = (m, d) with d != 0; distinct by (m, d, TIP-901).", if ctx.thorough() { 16384 } else { 4096 }, if ctx.thorough() { 1 } else { 2 }, ms.len());
     (out, rule, Some(true))
 }
 
 pub fn replay(case: &serde_json::Value) -> Check {
+    if let Ok((net, ms)) = serde_json::from_value::<(u8, String)>(case.clone()) {
+        let mut st = Stats::default();
+        return boundary_case(net, ms.parse().unwrap_or(0), &mut st, 200);
+    }
     let c: Case = serde_json::from_value(case.clone()).map_err(|e| Violation::new("replay-format", e.to_string()))?;
     let mut st = Stats::default();
     check_case(&c, &mut st, 200)
+}
+
+fn boundary_case(net_sel: u8, m0: u128, st: &mut Stats, shard: usize) -> Check {
+    let (net, act) = if net_sel == 1 { (NetID::Mainnet, 42_700u64) } else { (NetID::Testnet, 500u64) };
+    for d in [-128i8, -64, -1, 1, 64, 127] {
+        let mut w = World::new(genesis(net, m0), shard);
+        // get to height act-2 (unsealed)
+        if net == NetID::Mainnet {
+            if !crate::plan::teleport(&mut w, act - 2, st) {
+                return Ok(());
+            }
+        } else {
+            for _ in 0..(act - 2) {
+                if !matches!(w.seal(None), crate::world::Outcome::Ok(_)) {
+                    return Ok(());
+                }
+            }
+        }
+        let mut m = m0;
+        for _ in 0..5 {
+            let h = w.height();
+            let t901 = crate::refstf::tips_at(net, h).t901;
+            match w.seal(Some(ProposerAction { fee_multiplier_delta: d, reward_dest: CovSpec::True.hash() })) {
+                crate::world::Outcome::Ok(s) => {
+                    st.eval();
+                    let got = s.header().fee_multiplier;
+                    let (want, clamped) = spec(m, d, t901);
+                    if !clamped && got != want {
+                        viol!(
+                            if h == act { "step-wrong-at-activation-height" } else { "step-wrong-near-activation-height" },
+                            "{:?} block {} (TIP-901 active: {}): multiplier {} with delta {} became {}, specified {}",
+                            net,
+                            h,
+                            t901,
+                            m,
+                            d,
+                            got,
+                            want
+                        );
+                    }
+                    if clamped && ((d < 0 && got > m) || (d > 0 && got < m)) {
+                        viol!("wrapped-around", "{:?} block {}: multiplier {} with delta {} became {}", net, h, m, d, got);
+                    }
+                    m = got;
+                    st.nontrivial(crate::util::h64(format!("boundary|{:?}|{}|{}|{}", net, h, m, d).as_bytes()));
+                }
+                crate::world::Outcome::Panicked(p) => viol!("seal-panics-near-activation", "{:?} block {}: multiplier {} delta {}: {}", net, h, m, d, p.message),
+                _ => break,
+            }
+        }
+    }
+    st.class("activation-boundary-run");
+    Ok(())
 }
